@@ -170,6 +170,9 @@ func newWriterLoop(c *kit.Ctx, m *storeModel, w *pointWriter) *writerLoop {
 	return wl
 }
 
+// dbIndexMark is the abstract index of the stored row in the merge-loop model.
+const dbIndexMark = "7"
+
 // valuation of one merge-loop iteration.
 type mergeVal struct {
 	rows   int  // 0 or 1 stored row
@@ -269,7 +272,7 @@ func (wl *writerLoop) run(v mergeVal) *mergeOutcome {
 		if o := kit.ObjOf(info, ast.Unparen(st.Resolve(e))); o != nil && dbIdxs[o] {
 			return true
 		}
-		if v, ok := st.FoldExpr(e, s); ok && v.ExactString() == "0" {
+		if v, ok := st.FoldExpr(e, s); ok && v.ExactString() == dbIndexMark {
 			return true
 		}
 		return false
@@ -472,7 +475,9 @@ func (wl *writerLoop) run(v mergeVal) *mergeOutcome {
 				if br.Range.Key != nil {
 					if o := kit.ObjOf(info, br.Range.Key); o != nil {
 						dbIdxs[o] = true
-						s2 = s2.Set("v:"+kit.VarID(o), "0") // the one stored row has index 0
+						// the index of the one stored row is given a value no other counter
+						// takes, so that it can be told from them after passing through helpers
+						s2 = s2.Set("v:"+kit.VarID(o), dbIndexMark)
 					}
 				}
 				if br.Range.Value != nil {
